@@ -15,7 +15,7 @@ import sys
 import time
 from concurrent.futures import ProcessPoolExecutor, as_completed
 
-from . import engine, shrink as shrink_mod
+from . import engine, shrink as shrink_mod, known as known_mod
 
 VERIF = os.path.dirname(os.path.dirname(os.path.abspath(__file__)))
 CHUNK = 250
@@ -55,13 +55,49 @@ class Plan:
         return {}
 
 
-def execute(plan, scn):
-    """One simulated run: returns (run, violations)."""
+def _execute_raw(plan, scn):
+    g0 = engine.GIVEUP.count
     run = engine.Run(scn, oracles=plan.oracles).execute()
     viol = list(run.violations)
     if not viol:
         viol = list(plan.posthoc(run))
+    run.gave_up = engine.GIVEUP.count > g0        # live operations or their fresh replicas
     return run, viol
+
+
+def execute(plan, scn):
+    """One simulated run: returns (run, violations).  A violation found in a run during which the
+    rewriter gave up is replayed with the step budget lifted (counterfactual, classification only):
+    if the run is then clean it is attributed to known finding F4 (if listed for this property)."""
+    run, viol = _execute_raw(plan, scn)
+    if viol and run.gave_up and known_mod.listed(_known(), plan.prop, "F4"):
+        from . import counterfactual as CF
+        try:
+            restore = CF.lift_reduction_bound()
+        except CF.Unavailable:
+            restore = None
+        if restore is not None:
+            try:
+                run2, viol2 = _execute_raw(plan, scn)
+            finally:
+                restore()
+            if not viol2:
+                kf = list(getattr(run, "known_findings", ()))
+                kf.append("F4")
+                run.known_findings = kf
+                run.attributed = [v.to_json() for v in viol]
+                viol = []
+    return run, viol
+
+
+_KNOWN = None
+
+
+def _known():
+    global _KNOWN
+    if _KNOWN is None:
+        _KNOWN = known_mod.load()
+    return _KNOWN
 
 
 def _merge_stats(acc, st):
